@@ -521,6 +521,10 @@ func TestPropIdentifiers(t *testing.T) {
 			return fmt.Sprintf("%d.%d.%d.%d:%d:%d", rapid.IntRange(0, 255).Draw(t, "a"), rapid.IntRange(0, 255).Draw(t, "b"), rapid.IntRange(0, 255).Draw(t, "c"), rapid.IntRange(0, 255).Draw(t, "d"), rapid.IntRange(1, 65535).Draw(t, "port"), rapid.Int64Range(1, 1<<62).Draw(t, "id"))
 		}),
 		rapid.StringMatching(`[A-Za-z0-9:_.\-]{1,40}`),
+		// coordinator addresses given as DNS names or IPv6 literals make long xids
+		rapid.Custom(func(t *rapid.T) string {
+			return fmt.Sprintf("%s.svc.cluster.local:%d:%d", rapid.StringMatching(`[a-z]{20,60}`).Draw(t, "host"), rapid.IntRange(1, 65535).Draw(t, "port"), rapid.Int64Range(1, 1<<62).Draw(t, "id"))
+		}),
 	)
 	idGen := rapid.OneOf(rapid.Uint64(), rapid.SampledFrom([]uint64{1, 9, 10, 1<<63 - 1, 1 << 63, 1<<64 - 1, 5001}))
 	ctx.Check(t, func(rt *rapid.T) {
